@@ -12,6 +12,22 @@ ROOT = os.path.dirname(HERE)
 WORK = os.path.join(ROOT, ".work")
 REPO = os.environ.get("VERIF_REPO", "/repo")
 
+
+def calibrated_tree():
+    """True when the tree under analysis is the one the self-checks of the machinery (positive controls, API-surface witnesses) were
+    calibrated on: /repo at the commit recorded in /verif/PINNED with an unmodified src/, Cargo.toml and Cargo.lock. On any other tree a
+    self-check whose anchor has moved says nothing about the property and is recorded as information, not as a finding."""
+    import subprocess
+    if os.path.realpath(REPO) != "/repo":
+        return False
+    try:
+        pin = open(os.path.join(os.path.dirname(os.path.dirname(os.path.abspath(__file__))), "PINNED")).read().split()[0]
+        head = subprocess.run(["git", "-C", REPO, "rev-parse", "HEAD"], capture_output=True, text=True, timeout=60).stdout.strip()
+        dirty = subprocess.run(["git", "-C", REPO, "status", "--porcelain", "--", "src", "Cargo.toml", "Cargo.lock"], capture_output=True, text=True, timeout=60).stdout.strip()
+        return head == pin and not dirty
+    except Exception:
+        return False
+
 sys.path.insert(0, HERE)
 from facts import Facts  # noqa: E402
 import val  # noqa: E402
@@ -83,6 +99,11 @@ def load_facts(config, repo=None):
         lock.close()
     fx = Facts(out)
     _facts_cache[key] = fx
+    try:
+        import vmodel
+        vmodel.FIELD_ALIASES = dict(fx.borrowed_field_aliases())
+    except Exception:
+        pass
     return fx
 
 
